@@ -614,3 +614,213 @@ class MatchOverlap(Contract):
 
     def post(self, a, ret, case):
         return [("returns None", ret is None)]
+
+
+# =====================================================================================================================
+# match_tracks (method="distance"): the greedy loop and the leftover loop, verified for any number of alive tracks / droplets
+KEY_MDL = KEY_MD
+D0F = z3.Function("distance_prev_now", I, I, Rl)         # metric(last position of alive track a, position of droplet b)
+USEDROW = lambda arr, a: z3.Select(arr, a)               # noqa: E731
+
+
+class SymIntSet:
+    """python set of ints built by .add inside a cut loop: characteristic function"""
+
+    def __init__(self, arr):
+        self.arr = arr
+
+    def sym_getattr(self, run, attr):
+        if attr == "add":
+            def add(run2, a, k):
+                self.arr = z3.Store(self.arr, to_z3(a[0]), z3.BoolVal(True))
+            return SNative(add, "set.add")
+        from pyvc.engine import _MISSING
+        return _MISSING
+
+    def sym_contains(self, E, item):
+        return z3.Select(self.arr, to_z3(item))
+
+
+class GreedyLoop(LoopSpec):
+    """while True: link the closest remaining (alive track, droplet) pair within the cut-off; break when none is left"""
+    has_variant = False
+
+    def init_ghost(self, run, env):
+        g = run.ghost["md"]
+        g["rows_used"] = z3.K(I, z3.BoolVal(False))
+        env["added"] = SymIntSet(z3.K(I, z3.BoolVal(False)))
+
+    def havoc(self, run, env):
+        g = run.ghost["md"]
+        c = next(run.counter)
+        g["rows_used"] = z3.Const(f"rows_used!{c}", z3.ArraySort(I, B))
+        env["added"] = SymIntSet(z3.Const(f"added!{c}", z3.ArraySort(I, B)))
+        d = env["dists"]
+        f = z3.Function(f"dists!{c}", I, I, Rl)
+        env["dists"] = H.SMat(g["m"], g["n"], lambda a, b: f(to_z3(a), to_z3(b)), "dists")
+
+    def invariant(self, run, env, it, seq):
+        g = run.ghost["md"]
+        d, added = env["dists"], env["added"]
+        m, n, md = g["m"], g["n"], g["max_dist"]
+        a, b = z3.Ints("ga gb")
+        inr = z3.And(a >= 0, a < m, b >= 0, b < n)
+        if not isinstance(d, H.SMat) or not isinstance(added, SymIntSet):
+            yield ("`dists` is the distance matrix and `added` the set of linked droplets", z3.BoolVal(False))
+            return
+        used = g["rows_used"]
+        free = z3.And(z3.Not(z3.Select(used, a)), z3.Not(z3.Select(added.arr, b)), D0F(a, b) <= md)
+        yield ("the matrix keeps its shape (alive tracks x droplets of the frame)", z3.And(to_z3(d.rows) == m, to_z3(d.cols) == n))
+        yield ("an entry is the original distance exactly when its track and its droplet are still unlinked and the distance is within the cut-off; "
+               "every other entry is infinite",
+               z3.ForAll([a, b], z3.Implies(inr, d.at(a, b) == z3.If(free, D0F(a, b), H.INF()))))
+
+    def before_body(self, run, env, it, seq):
+        g = run.ghost["md"]
+        g["appends"].clear()
+        g["pre_added"] = env["added"].arr
+        g["pre_used"] = g["rows_used"]
+
+    def after_body(self, run, env, it, seq):
+        g = run.ghost["md"]
+        m, n, md = g["m"], g["n"], g["max_dist"]
+        ap = g["appends"]
+        run.oblige("a step of the greedy loop links exactly one droplet to exactly one alive track", z3.BoolVal(len(ap) == 1), kind="ensures", assume_after=False)
+        if len(ap) != 1:
+            return
+        tr, args, kw = ap[0]
+        i, j = tr.index, getattr(args[0], "index", None) if args else None
+        ok = j is not None and len(args) == 1 and set(kw) == {"time"} and kw["time"] is g["time"]
+        run.oblige("the droplet is appended itself, stamped with the frame's time", z3.BoolVal(bool(ok)), kind="ensures", assume_after=False)
+        if not ok:
+            return
+        a, b = z3.Ints("ga gb")
+        pre_free = lambda x, y: z3.And(z3.Not(z3.Select(g["pre_used"], x)), z3.Not(z3.Select(g["pre_added"], y)), D0F(x, y) <= md)   # noqa: E731
+        run.oblige("the linked track was alive and unlinked, the droplet was not linked before (each track gets at most one droplet of the frame, each "
+                   "droplet is linked at most once), and their distance is within the cut-off",
+                   z3.And(i >= 0, i < m, j >= 0, j < n, pre_free(i, j)), kind="ensures", assume_after=False)
+        run.oblige("the link is a closest pair among all still unlinked (track, droplet) pairs within the cut-off (greedy order)",
+                   z3.ForAll([a, b], z3.Implies(z3.And(a >= 0, a < m, b >= 0, b < n, pre_free(a, b)), D0F(i, j) <= D0F(a, b))), kind="ensures", assume_after=False)
+        # ghost: row i is used now (the code marks it by writing infinities; `added` is updated by the code itself)
+        g["rows_used"] = z3.Store(g["pre_used"], i, z3.BoolVal(True))
+        run.oblige("the linked droplet is recorded in `added`", z3.Select(env["added"].arr, j), kind="ensures", assume_after=False)
+
+    def at_exit(self, run, env, it, seq):
+        g = run.ghost["md"]
+        m, n, md = g["m"], g["n"], g["max_dist"]
+        a, b = z3.Ints("ga gb")
+        added = env["added"]
+        g["exit_added"] = added.arr
+        run.oblige("when the loop stops no unlinked alive track is within the cut-off of an unlinked droplet (no track ends next to a track that starts)",
+                   z3.ForAll([a, b], z3.Implies(z3.And(a >= 0, a < m, b >= 0, b < n, z3.Not(z3.Select(g["rows_used"], a)), z3.Not(z3.Select(added.arr, b))),
+                                                D0F(a, b) > md)), kind="ensures", assume_after=False)
+
+
+class LeftoverLoop(_BodyOnce):
+    def before_body(self, run, env, i, seq):
+        g = run.ghost["md"]
+        g["new_tracks"].clear()
+        g["added_to_tracks"] = 0
+
+    def after_body(self, run, env, i, seq):
+        g = run.ghost["md"]
+        nt = g["new_tracks"]
+        added = env["added"]
+        was = added.sym_contains(run, i) if isinstance(added, SymIntSet) else z3.BoolVal(False)
+        run.oblige("a droplet starts a new track exactly when it was not linked to an alive track", z3.BoolVal(len(nt) == 1) == z3.Not(was) if len(nt) <= 1 else z3.BoolVal(False),
+                   kind="ensures", assume_after=False)
+        if len(nt) == 1:
+            args, kw = nt[0]
+            dl, tl = kw.get("droplets"), kw.get("times")
+            ok = (not args and isinstance(dl, list) and len(dl) == 1 and getattr(dl[0], "index", None) is not None and isinstance(tl, list) and len(tl) == 1
+                  and tl[0] is g["time"] and set(kw) == {"droplets", "times"} and g["added_to_tracks"] == 1)
+            run.oblige("the new track holds exactly that droplet and the frame's time and is added to the track list",
+                       z3.And(z3.BoolVal(bool(ok)), dl[0].index == i) if ok else z3.BoolVal(False), kind="ensures", assume_after=False)
+
+
+@register
+class MatchDistanceLoops(Contract):
+    key = KEY_MDL
+    variant = "loops"
+    modular = False
+    loops = {}
+
+    def cases(self):
+        return [dict(grid=g, cutoff=c) for g in ("none", "given") for c in ("inf", "finite")]
+
+    def setup(self, run, case):
+        n, m = run.input_int("n_droplets"), run.input_int("n_alive")
+        run.assume(z3.And(n >= 0, m >= 0))
+        g = dict(m=m, n=n, appends=[], new_tracks=[], added_to_tracks=0)
+        time = run.input_real("time")
+        g["time"] = time
+        md = H.INF() if case["cutoff"] == "inf" else run.input_real("max_dist")
+        g["max_dist"] = md
+        a, b = z3.Ints("ga gb")
+        run.assume(z3.ForAll([a, b], z3.And(D0F(a, b) >= 0, D0F(a, b) < H.INF())))
+        if case["cutoff"] == "finite":
+            run.assume(z3.And(md >= 0, md < H.INF()))
+
+        def mk_track(k):
+            k = to_z3(k)
+            t = Sym(f"track[{k}]", attrs={"last": Sym(f"last[{k}]", attrs={"position": Sym(f"p_prev[{k}]", term=k)})},
+                    methods={"append": lambda run2, args, kw: g["appends"].append((t, list(args), dict(kw)))})
+            t.index = k
+            return t
+
+        def mk_drop(i):
+            i = to_z3(i)
+            d = Sym(f"droplet[{i}]", attrs={"position": Sym(f"p_now[{i}]", term=i)})
+            d.index = i
+            return d
+        tracks = SSeq(m, mk_track, "tracks_alive", "list")
+        em = SSeq(n, mk_drop, "emulsion", "list")
+        run.ghost["md"] = g
+        models.CONSTRUCTORS["DropletTrack"] = lambda eng, run2, cls, args, kw: (g["new_tracks"].append((list(args), dict(kw))) or SObj(cls, {"_new": True}))
+        all_tracks = Sym("tracks", methods={"append": lambda run2, a_, kw: g.__setitem__("added_to_tracks", g["added_to_tracks"] + (1 if isinstance(a_[0], SObj) and a_[0].fields.get("_new") else 100))})
+        self.ctx = (run, g, all_tracks, SMetricGrid(2) if case["grid"] == "given" else None, md, case)
+        run.ghost["use_d0f"] = True
+        return dict(emulsion=em, tracks_alive=tracks, time=time)
+
+    def closure(self, engine, run, fi, a, case):
+        run_, g, all_tracks, grid, md, case_ = self.ctx
+        return Frame(fi.parent, {"tracks": all_tracks, "grid": grid, "max_dist": SInf(1) if case["cutoff"] == "inf" else md}, None, source.load_module(fi.module))
+
+    def call(self, engine, run, fi, a, case):
+        # the two loops of this function are verified here (they are truncated for the other contract of the same function)
+        eng_specs = engine.loop_specs
+        eng_specs[(KEY_MDL, 0)] = GreedyLoop()
+        eng_specs[(KEY_MDL, 1)] = LeftoverLoop()
+        return engine.call_function(run, fi, [a["emulsion"], a["tracks_alive"]], {"time": a["time"]}, closure=self.closure(engine, run, fi, a, case))
+
+    def post(self, a, ret, case):
+        run, g, all_tracks, grid, md, case_ = self.ctx
+        cd = run.ghost.get("cdist")
+        out = [("returns None", ret is None)]
+        if cd is not None:
+            if case["grid"] == "none":
+                out.append(("without a grid the Euclidean metric is used", cd["metric"] == "euclidean"))
+            out.append(("rows are the alive tracks (their last positions), columns the droplets of the frame, in order",
+                        isinstance(cd["XA"], SSeq) and isinstance(cd["XB"], SSeq) and cd["XA"].length is g["m"] and cd["XB"].length is g["n"]))
+        return out
+
+
+_prev_cdist = models.EXTERNALS["scipy.spatial.distance.cdist"]
+
+
+@models.external("scipy.spatial.distance.cdist")
+def sp_cdist2(engine, run, a, k):
+    if run.ghost.get("use_d0f"):
+        g = run.ghost["md"]
+        XA, XB = a[0], a[1]
+        run.oblige("requires of scipy cdist: XA is a non-empty 2-dimensional array of points", to_z3(XA.length) > 0, kind="requires")
+        run.oblige("requires of scipy cdist: XB is a non-empty 2-dimensional array of points", to_z3(XB.length) > 0, kind="requires")
+        # row a / column b must be the a-th alive track / b-th droplet
+        ia, ib = z3.Ints("ca cb")
+        pa, pb = XA.at(ia), XB.at(ib)
+        ok = getattr(pa, "term", None) is not None and getattr(pb, "term", None) is not None and z3.eq(pa.term, ia) and z3.eq(pb.term, ib) and pa.name.startswith("p_prev") and pb.name.startswith("p_now")
+        run.oblige("the distance matrix pairs the last position of alive track a with the position of droplet b", z3.BoolVal(bool(ok)), kind="ensures", assume_after=False)
+        run.trust("scipy: cdist(XA, XB, metric)[a, b] == metric(XA[a], XB[b]); both inputs non-empty")
+        run.ghost["cdist"] = dict(XA=XA, XB=XB, metric=k.get("metric", a[2] if len(a) > 2 else "euclidean"))
+        return H.SMat(XA.length, XB.length, lambda x, y: D0F(to_z3(x), to_z3(y)), "dists")
+    return _prev_cdist(engine, run, a, k)
